@@ -681,17 +681,22 @@ class BaseTaskPool:
             `PoolStillUnlocked`: The pool has not been locked yet.
         """
         self.lock()
-        not_cancelled_meta_tasks = (
-            task
-            for task_set in self._group_meta_tasks_running.values()
-            for task in task_set
-        )
-        with suppress(CancelledError):
-            await gather(
-                *self._meta_tasks_cancelled,
-                *not_cancelled_meta_tasks,
-                return_exceptions=return_exceptions,
-            )
+        meta_tasks = [
+            *self._meta_tasks_cancelled,
+            *(
+                task
+                for task_set in self._group_meta_tasks_running.values()
+                for task in task_set
+            ),
+        ]
+        # Wait for every meta task, whatever happens to the others: one that
+        # was cancelled before it ever ran ends as cancelled and must not cut
+        # short the wait for those that are still spawning tasks.
+        results = await gather(*meta_tasks, return_exceptions=True)
+        if not return_exceptions:
+            for result in results:
+                if isinstance(result, Exception):
+                    raise result
         self._meta_tasks_cancelled.clear()
         self._group_meta_tasks_running.clear()
         await gather(
